@@ -19,6 +19,9 @@ def cmd(r, k, dur):
     body = "sleep %s" % dur
     if str(dur).startswith("noint"):          # a child that ignores SIGINT: ends only by SIGKILL after the interpreter's 2 s grace
         body = "sh -c \"trap '' INT; while :; do :; done\""       # (no grandchild: one that kept the output pipe open would delay the return, which is outside the statement)
+    if str(dur).startswith("survive"):        # a child that ignores SIGINT and ends BY ITSELF with status 0 shortly after the Cancel: the command completes;
+        # it is the command's last statement, so nothing of this command is left to be interrupted - the NEXT command must not start, the task must report an error
+        return 'echo "start.%d.%d $(date +%%s%%N)" >> "$TRACE"; sh -c "trap \'\' INT; sleep 0.7"' % (r, k)
     return 'echo "start.%d.%d $(date +%%s%%N)" >> "$TRACE"; %s; echo "end.%d.%d $(date +%%s%%N)" >> "$TRACE"' % (r, k, body, r, k)
 
 
@@ -61,6 +64,11 @@ def gen_cases(ctx):
         for nc in (2, 3):
             add("cancels-all-waiting-%d-%d" % (k, nc), [task(r, ["noint30", "30"]) for r in range(k)],
                 [{"op": "cancel", "after_ms": 300 + 60 * j} for j in range(nc)] + [{"op": "par", "tasks": list(range(k))}])
+    # Cancel takes effect BETWEEN two commands: the command in progress survives the interruption and completes, the next one must not start
+    for k in (1, 2):
+        for allow in (False, True):
+            add("survivor-then-next-%d%s" % (k, "-allow" if allow else ""), [task(r, ["survive", "30", "0.1"], allow=allow) for r in range(k)],
+                [{"op": "cancel", "after_ms": 300}, {"op": "par", "tasks": list(range(k))}])
     # tasks with allow_failure in flight: an interrupted task still reports an error and starts nothing more
     for k in (1, 2):
         add("in-flight-allow-failure-%d" % k, [task(r, ["30", "30", "0.1"], allow=True) for r in range(k)],
@@ -111,8 +119,19 @@ def run(ctx):
     res = vlib.Result()
     res.rule = ("scenarios of the statement: Cancel before the run, after the last task finished, twice with nothing in flight, during a before hook, "
                 "between commands (several offsets), with 0..4 tasks in flight (once and twice in a row), pipelines with 0..4 stages in flight and "
-                "0..3 waiting cancelled from outside and by a stage-condition error; one child process per scenario, real `sleep` commands.  "
+                "0..3 waiting cancelled from outside and by a stage-condition error; a command that survives the interruption and completes (Cancel takes effect between two commands); "
+                "Cancel again after refused runs; a stage-condition error inside / next to a nested pipeline through the binary; one child process per scenario, real `sleep` commands.  "
                 "distinct = distinct scenario; non-trivial = at least one task in flight or one waiting stage or a Cancel with nothing in flight.")
+    # cancellation from a stage-condition error inside / next to a NESTED pipeline, through the binary: the pipeline run returns
+    import schedlib
+    if ctx.replay_cases and any(c.get("kind") == "nested-conderr-cli" for c in ctx.replay_cases):
+        schedlib.nested_conderr_cli(ctx, res)
+        ctx.replay_cases = [c for c in ctx.replay_cases if c.get("kind") != "nested-conderr-cli"]
+        if not ctx.replay_cases:
+            res.samples = [{"replayed_sections": ["nested-conderr-cli"]}]
+            return res
+    elif not ctx.replay_cases:
+        schedlib.nested_conderr_cli(ctx, res)
     cases = ctx.replay_cases if ctx.replay_cases else gen_cases(ctx)
     for k, c in enumerate(cases):
         c["id"] = k
